@@ -1,5 +1,16 @@
-"""C01 - ersatz edit primitives: correspondence with coq/C01 (model + pointwise spec)."""
+"""C01 - ersatz edit primitives: correspondence with coq/C01 (model + pointwise spec).
+
+An input is ONE call, or a FAMILY of calls ({'kind': 'seq', 'calls': [...]}) made one after the
+other in this process on the same caller-owned tensor object (motif tensors, spacing / alphabet /
+probs objects and RandomState objects are shared between the calls of a family as well).  After
+every call every caller-owned object is compared with its snapshot.  Optional 'opts' (on the
+family and/or on a call) select the input form: dtype and memory layout of X and of motif
+tensors, Python / numpy integer types, alphabet form (list / str / default argument, any order of
+letters), probs form (list / numpy / tensor / default argument, shared or per example),
+random_state form (int / numpy int / RandomState object)."""
+import copy
 import itertools
+import json
 
 import numpy
 import torch
@@ -8,31 +19,44 @@ from . import common as C
 
 PID = 'C01'
 IMPORTS = ['Base.OneHot', 'C01.Model', 'C01.Spec', 'C01.Lit']
-CASE_TYPE = 'case'
-CHECK = 'check_case'
-RULE = ('(1) small scope: alphabets 2-4, every sequence of length 1..5 (quick tier: length 1..4, at most 64 '
-        'sequences per (A,L) and 4 motifs per length), 16 sequences per call; every shared motif of length '
-        '1-3 (string/tensor alternating); every start in [-3, L+3] for substitute and insert; every '
-        '(start,end) in [-2,L+2]^2 for delete; alphabets 5-6: same positions, 64 sampled sequences per '
-        '(A,L) and 8 sampled motifs per length. (2) systematic positions with sampled content: '
-        'multisubstitute (sequence length 4..8) over every pair of motif lengths 1-3 x spacing in '
-        '{-1,0,1,2,L-1,L} x start in [-2,L+2] and the default start; randomize over every (start,end) in [-2,L+2]^2; per-example motifs at every '
-        'start and the default start. (3) seeded random cases (L<=60, batch<=6, alphabets 2-6, string/tensor, shared/per-example '
-        'motifs, 1-4 motifs with spacing lists): 60% drawn inside the scope with positions biased to the '
-        'boundaries (0, L-m, L), 40% from a boundary/malformed stream (positions within 4 of 0 and L, '
-        'all-zero / two-ones / value-2 columns, wrong alphabet, wrong motif batch, motif longer than X, bad '
-        'spacing lists). Non-trivial = accepted call whose output differs from the input, or rejected call '
-        'with a position within 3 of a boundary')
+CASE_TYPE = 'mcase'
+CHECK = 'check_mcase'
+RULE = ('an input = one call or a family of calls on the SAME tensor objects in one process (verdict = worst '
+        'call; evaluations counts inputs). (1) small: alphabets 2-4, every sequence of length 1..5 (quick: '
+        'length 1..4, <=64 sequences per (A,L), 4 motifs per length), 16 sequences per tensor; one family per '
+        '(tensor, shared motif of length 1-3) = substitute and insert at every start in [-3,L+3] + default, '
+        'string/tensor alternating; one family per tensor = delete at every (start,end) in [-2,L+2]^2; '
+        'alphabets 5-6: same positions, 64 sampled sequences, 8 sampled motifs per length. (2) pos: '
+        'per-example motifs at every start; multisubstitute (L 4..8) over every pair of motif lengths 1-3 x '
+        'spacing {-1,0,1,2,L-1,L} x start [-2,L+2] + default, one motif with [] / int spacing at every '
+        'start, three motifs tiling exactly; randomize at every (start,end) in [-2,L+2]^2. (3) random '
+        '(L<=60, batch<=6, alphabets 2-6): 60% inside the scope with positions biased to 0, L-m, L; 40% '
+        'boundary/malformed (bad columns, wrong alphabet / batch, motif longer than X, bad spacing lists). '
+        '(4) forms: random calls (75% in scope, 25% boundary/malformed) with every input form (9 dtypes and 3 memory layouts of X and of '
+        'motif tensors, numpy int32/int64 positions / counts / seeds, alphabet as list / str / default and in '
+        'permuted order, probs as list / numpy / tensor / default, shared / per-example, RandomState objects); '
+        'edge values (empty motif, motif length = L, n = 1 and 5, one-motif lists). (5) seq: families of 3-7 '
+        'calls re-using the same X, motif, list and RandomState objects with ONE thing changed between '
+        'consecutive calls (start, kind, motif form, alphabet order with the same motif string, seed, probs '
+        'form, spacing int <-> list, a rejected call in between). Non-trivial = accepted call whose output '
+        'differs from the input, or rejected call with a position within 3 of a boundary')
 # thorough: the enumeration (1) is complete for A<=4, L<=5, motif length<=3, shared motif, start in
 # [-3,L+3] (substitute, insert) and (start,end) in [-2,L+2]^2 (delete); everything else is sampled.
 EXHAUSTIVE = {'quick': False, 'thorough': True}
-TRUSTED = ['compact case literals: an all-one-hot batch is written as one base-8 numeral per sequence (digit q = '
-           'index of the 1 in column q) and expanded by C01/Lit.v:decn inside Coq (any other batch is written in full)',
+TRUSTED = ['compact case literals: an all-one-hot batch is written as one hexadecimal numeral (1-3 bits per column) '
+           'and expanded by C01/Lit.v:decb inside Coq (any other batch is written in full); a family is judged by '
+           'C01/Lit.v:check_mcase = worst Spec.check_case of its calls',
            'randomize: the drawn replacement is obtained by replaying numpy RandomState through utils.random_one_hot']
 ASSUMPTIONS = ['torch slicing/cat/clone implement list surgery (exercised by every case)',
-               'aliasing ("caller tensors unmodified") is observed by the harness, not modelled']
+               'aliasing ("caller tensors unmodified") is observed by the harness after every call (X, the tensor '
+               'X is a view of, motif tensors, motif / spacing / alphabet lists, probs), not modelled']
 LETTERS = 'ACGTXY'
-SHARD = 1000
+SHARD = 150
+
+DTYPES = {'float32': torch.float32, 'float64': torch.float64, 'float16': torch.float16, 'int8': torch.int8,
+          'uint8': torch.uint8, 'int16': torch.int16, 'int32': torch.int32, 'int64': torch.int64,
+          'bool': torch.bool}
+ITYPES = {'int': int, 'np64': numpy.int64, 'np32': numpy.int32}
 
 # column codes: k>=0 one-hot at k; -1 all-zero; -2 two ones; -3 contains a 2
 
@@ -60,166 +84,332 @@ def to_tensor(A, seqs):
     return torch.tensor(data, dtype=torch.float32).permute(0, 2, 1).contiguous()
 
 
+def shaped(T, dtype='float32', layout='contig'):
+    """the same values with the requested dtype and memory layout; returns (tensor, base or None)
+    where base is the larger tensor T is a view of"""
+    dt = DTYPES[dtype]
+    if dt == torch.bool and not bool(((T == 0) | (T == 1)).all()):
+        dt = torch.float32      # a malformed column must stay malformed
+    if layout == 'permuted' and T.dim() == 3:
+        return T.permute(0, 2, 1).contiguous().to(dt).permute(0, 2, 1), None
+    if layout == 'slice' and T.dim() == 3:
+        B, A, L = T.shape
+        base = torch.zeros(B + 2, A, L + 3, dtype=dt)
+        base[:, 0, :] = 1
+        base[1:B + 1, :, 2:L + 2] = T.to(dt)
+        return base[1:B + 1, :, 2:L + 2], base
+    return T.to(dt), None
+
+
 def from_tensor(Y):
     """(B, A, L) tensor -> [B][L][A] nested int lists (values must be integral)."""
-    Y = Y.detach().cpu()
+    Y = Y.detach().cpu().to(torch.float64)
     if not torch.equal(Y, Y.round()):
         return 'nonintegral'
     return Y.permute(0, 2, 1).to(torch.int64).tolist()
 
 
+# ----------------------------------------------------------------------------------------
+# Coq literals
+
 def packed(A, codes):
-    """all-one-hot batch given as column indices -> '(decn A L [n; ...])' (see coq/C01/Lit.v)"""
-    L = len(codes[0])
-    ns = []
+    """all-one-hot batch given as column indices -> (w, A, B, L, numeral) for C01/Lit.v:decb"""
+    B, L = len(codes), len(codes[0])
+    w = 1 if A <= 2 else 2 if A <= 4 else 3
+    n, sh = 0, 0
     for s in codes:
-        n = 0
-        for q, k in enumerate(s):
-            n |= k << (3 * q)
-        ns.append(n)
-    return '(decn %s %s %s)' % (C.nat(A), C.nat(L), C.zlist(ns))
+        for k in s:
+            n |= k << sh
+            sh += w
+    return '%d %s %s %s %s' % (w, C.nat(A), C.nat(B), C.nat(L), hex(n))
+
+
+def packable(A, codes):
+    return bool(codes) and 2 <= A <= 8 and len({len(s) for s in codes}) == 1 and \
+        all(0 <= k < A for s in codes for k in s)
 
 
 def codes_lit(A, codes):
     """batch given as column codes -> Coq term of type batch"""
-    if codes and A <= 8 and all(0 <= k < A for s in codes for k in s):
-        return packed(A, codes)
+    if packable(A, codes):
+        return '(decb %s)' % packed(A, codes)
     return C.batch_lit([[column(A, k) for k in s] for s in codes])
 
 
-def nested_lit(Y):
-    """batch given as nested 0/1 lists [B][L][A'] -> Coq term of type batch (packed when every
-    column is one-hot over one common width <= 8)"""
+def tensor_lit(A, codes):
+    L = len(codes[0]) if codes else 0
+    if packable(A, codes):
+        return '(tb %s)' % packed(A, codes)
+    return '(T %s %s %s)' % (C.nat(A), C.nat(L), codes_lit(A, codes))
+
+
+def nested_codes(Y):
+    """nested 0/1 lists [B][L][A'] -> (A', codes) when every column is one-hot over one width"""
     widths = {len(c) for s in Y for c in s}
-    if len(widths) == 1 and len({len(s) for s in Y}) == 1:
-        A = widths.pop()
-        codes = []
-        for s in Y:
-            row = []
-            for c in s:
-                if c.count(1) != 1 or c.count(0) != A - 1:
-                    return C.batch_lit(Y)
-                row.append(c.index(1))
-            codes.append(row)
-        if A <= 8:
-            return packed(A, codes)
-    return C.batch_lit(Y)
-
-
-def tensor_lit(A, seqs):
-    L = len(seqs[0]) if seqs else 0
-    return '(T %s %s %s)' % (C.nat(A), C.nat(L), codes_lit(A, seqs))
-
-
-def motif_arg(inp_m, alphabet):
-    if inp_m['form'] == 'str':
-        return ''.join('N' if k == -1 else LETTERS[k] for k in inp_m['seqs'][0])
-    return to_tensor(inp_m['A'], inp_m['seqs'])
-
-
-def draw_rands(inp):
-    """replay of the replacements randomize draws (utils.random_one_hot on one RandomState)"""
-    from tangermeme.utils import random_one_hot
-    B, s, e = len(inp['X']), inp['s'], inp['e']
-    probs = torch.tensor(inp['probs'])
-    rs = numpy.random.RandomState(inp['seed'])
-    Rs = []
-    try:
-        for _ in range(inp['n']):
-            R = random_one_hot((B, probs.shape[1], e - s), probs=probs, random_state=rs)
-            Rs.append(R)
-    except Exception:
+    if len(widths) != 1:
         return None
-    return Rs
+    A = widths.pop()
+    codes = []
+    for s in Y:
+        row = []
+        for c in s:
+            if c.count(1) != 1 or c.count(0) != A - 1:
+                return None
+            row.append(c.index(1))
+        codes.append(row)
+    return (A, codes) if packable(A, codes) else None
 
 
-def run_impl(inp):
-    from tangermeme import ersatz
-    A = inp['A']
-    alphabet = list(LETTERS[:A])
-    X = to_tensor(A, inp['X'])
-    X0 = X.clone()
-    kind = inp['kind']
-    keep = []
-    try:
-        if kind in ('sub', 'ins'):
-            m = motif_arg(inp['M'], alphabet)
-            keep = [(m, m.clone())] if isinstance(m, torch.Tensor) else []
-            f = ersatz.substitute if kind == 'sub' else ersatz.insert
-            Y = [f(X, m, start=inp['start'], alphabet=alphabet)]
-        elif kind == 'del':
-            Y = [ersatz.delete(X, inp['s'], inp['e'])]
-        elif kind == 'multi':
-            ms = [motif_arg(m, alphabet) for m in inp['Ms']]
-            keep = [(m, m.clone()) for m in ms if isinstance(m, torch.Tensor)]
-            Y = [ersatz.multisubstitute(X, ms, inp['spacing'], start=inp['start'], alphabet=alphabet)]
-        elif kind == 'rand':
-            Yr = ersatz.randomize(X, inp['s'], inp['e'], probs=inp['probs'], n=inp['n'],
-                                  random_state=inp['seed'])
-            Y = [Yr[:, i] for i in range(Yr.shape[1])]
-        else:
-            raise KeyError(kind)
-        ys = [from_tensor(y) for y in Y]
-        ok = True
-    except Exception as e:
-        ys, ok = None, False
-    unchanged = bool(torch.equal(X, X0)) and all(torch.equal(a, b) for a, b in keep)
-    return {'ok': ok, 'Y': ys, 'unchanged': unchanged}
+def nested_lit(Y):
+    ac = nested_codes(Y)
+    return '(decb %s)' % packed(*ac) if ac else C.batch_lit(Y)
+
+
+def nested_tensor_lit(Y, A, L):
+    ac = nested_codes(Y)
+    if ac and ac[0] == A:
+        return '(tb %s)' % packed(*ac)
+    return '(T %s %s %s)' % (C.nat(A), C.nat(L), C.batch_lit(Y))
 
 
 def motif_lit(m):
     return tensor_lit(m['A'], m['seqs'])
 
 
-def coq_case(inp, out):
-    A = inp['A']
-    X = tensor_lit(A, inp['X'])
-    kind = inp['kind']
+# ----------------------------------------------------------------------------------------
+# running the implementation
+
+def calls_of(inp):
+    return inp['calls'] if inp['kind'] == 'seq' else [inp]
+
+
+def opts_of(inp, call):
+    o = dict(inp.get('opts') or {})
+    if call is not inp:
+        o.update(call.get('opts') or {})
+    return o
+
+
+def letters_of(inp, call):
+    return call.get('alphabet') or inp.get('alphabet') or LETTERS[:inp['A']]
+
+
+class Session:
+    """one caller: owns X and every other object handed to the implementation"""
+
+    def __init__(self, inp):
+        self.inp = inp
+        self.A = inp['A']
+        o = inp.get('opts') or {}
+        self.X, self.base = shaped(to_tensor(self.A, inp['X']), o.get('xdtype', 'float32'),
+                                   o.get('xlayout', 'contig'))
+        self.watch = [(self.X, self.X.clone())]
+        if self.base is not None:
+            self.watch.append((self.base, self.base.clone()))
+        self.objs = {}
+        self.states = {}
+
+    # -- caller-owned objects, shared between the calls of a family
+    def obj(self, key, make):
+        k = json.dumps(key, sort_keys=True, default=str)
+        if k not in self.objs:
+            v = make()
+            self.objs[k] = v
+            if isinstance(v, torch.Tensor):
+                self.watch.append((v, v.clone()))
+            elif isinstance(v, numpy.ndarray):
+                self.watch.append((v, v.copy()))
+            elif isinstance(v, list):
+                self.watch.append((v, list(v)))
+        return self.objs[k]
+
+    def unchanged(self):
+        for v, snap in self.watch:
+            if isinstance(v, torch.Tensor):
+                if v.dtype != snap.dtype or v.shape != snap.shape or not torch.equal(v, snap):
+                    return False
+            elif isinstance(v, numpy.ndarray):
+                if v.dtype != snap.dtype or not numpy.array_equal(v, snap):
+                    return False
+            else:
+                if len(v) != len(snap) or any(a is not b and not (type(a) is type(b) and not
+                                              isinstance(a, torch.Tensor) and a == b)
+                                              for a, b in zip(v, snap)):
+                    return False
+        return True
+
+    def motif(self, m, letters, o, j=0):
+        if m['form'] == 'str':
+            return ''.join('N' if k == -1 else letters[k] for k in m['seqs'][0])
+        dt = o.get('mdtype', 'float32')
+        lay = o.get('mlayout', 'contig')
+        if isinstance(dt, list):
+            dt = dt[j % len(dt)]
+        return self.obj(['motif', m['A'], m['seqs'], dt, lay],
+                        lambda: shaped(to_tensor(m['A'], m['seqs']), dt, lay)[0])
+
+    def alphabet_kw(self, letters, o):
+        form = o.get('aform', 'list')
+        if form == 'default' and letters == 'ACGT':
+            return {}
+        if form == 'str':
+            return {'alphabet': letters}
+        return {'alphabet': self.obj(['alphabet', letters], lambda: list(letters))}
+
+    def replay(self, call, o, ok):
+        """the replacements randomize draws: utils.random_one_hot on the same RandomState stream"""
+        from tangermeme.utils import random_one_hot
+        B, s, e = len(self.inp['X']), call['s'], call['e']
+        probs = torch.tensor(call['probs'])
+        seed = call['seed']
+        if o.get('rsform') == 'state':
+            rs = self.states.setdefault(seed, [numpy.random.RandomState(seed), numpy.random.RandomState(seed)])[1]
+        else:
+            rs = numpy.random.RandomState(seed)
+        before = rs.get_state()
+        Rs = []
+        try:
+            for _ in range(call['n']):
+                R = random_one_hot((B, probs.shape[1], e - s), probs=probs, random_state=rs)
+                Rs.append([int(R.shape[1]), int(R.shape[2]), from_tensor(R)])
+        except Exception:
+            Rs = None
+        if not ok:
+            rs.set_state(before)     # a rejected call must not have consumed the caller's stream
+        return Rs
+
+    def call(self, call):
+        from tangermeme import ersatz
+        inp, X = self.inp, self.X
+        o = opts_of(inp, call)
+        I = ITYPES[o.get('itype', 'int')]
+        conv = lambda v: None if v is None else I(v)
+        letters = letters_of(inp, call)
+        kind = call['kind']
+        extra = {}
+        try:
+            if kind in ('sub', 'ins'):
+                m = self.motif(call['M'], letters, o)
+                f = ersatz.substitute if kind == 'sub' else ersatz.insert
+                Y = [f(X, m, start=conv(call['start']), **self.alphabet_kw(letters, o))]
+            elif kind == 'del':
+                Y = [ersatz.delete(X, conv(call['s']), conv(call['e']))]
+            elif kind == 'multi':
+                ms = [self.motif(m, letters, o, j) for j, m in enumerate(call['Ms'])]
+                self.watch.append((ms, list(ms)))
+                sp = call['spacing']
+                if isinstance(sp, list):
+                    sp = self.obj(['spacing', sp, o.get('itype', 'int')], lambda: [I(v) for v in sp])
+                Y = [ersatz.multisubstitute(X, ms, sp, start=conv(call['start']),
+                                            **self.alphabet_kw(letters, o))]
+            elif kind == 'rand':
+                kw = {}
+                pf = o.get('pform', 'list')
+                if not (pf == 'default' and call['probs'] == [[0.25] * 4]):
+                    kw['probs'] = self.obj(['probs', call['probs'], pf], lambda: {
+                        'numpy': lambda: numpy.array(call['probs']),
+                        'numpy32': lambda: numpy.array(call['probs'], dtype=numpy.float32),
+                        'tensor': lambda: torch.tensor(call['probs']),
+                        'tensor64': lambda: torch.tensor(call['probs'], dtype=torch.float64),
+                    }.get(pf, lambda: copy.deepcopy(call['probs']))())
+                rf = o.get('rsform', 'int')
+                if rf == 'state':
+                    seed = self.states.setdefault(call['seed'], [numpy.random.RandomState(call['seed']),
+                                                                 numpy.random.RandomState(call['seed'])])[0]
+                else:
+                    seed = numpy.int64(call['seed']) if rf == 'np64' else int(call['seed'])
+                Yr = ersatz.randomize(X, conv(call['s']), conv(call['e']), n=conv(call['n']),
+                                      random_state=seed, **kw)
+                if Yr.dim() != 4 or Yr.shape[0] != X.shape[0]:
+                    raise ValueError('shape of the randomize result: %r' % (tuple(Yr.shape),))
+                Y = [Yr[:, i] for i in range(Yr.shape[1])]
+            else:
+                raise KeyError(kind)
+            ys = [from_tensor(y) for y in Y]
+            ok = True
+        except Exception as e:
+            ys, ok = None, False
+            extra['err'] = type(e).__name__
+        out = {'ok': ok, 'Y': ys, 'unchanged': self.unchanged()}
+        if kind == 'rand':
+            out['Rs'] = self.replay(call, o, ok)
+        out.update(extra)
+        return out
+
+
+def run_impl(inp):
+    try:
+        sess = Session(inp)
+    except Exception as e:
+        raise
+    outs = [sess.call(c) for c in calls_of(inp)]
+    return {'seq': outs} if inp['kind'] == 'seq' else outs[0]
+
+
+def outs_of(inp, out):
+    return out['seq'] if inp['kind'] == 'seq' else [out]
+
+
+def op_lit(inp, call, out):
+    kind = call['kind']
     if kind == 'sub':
-        call = '(CSub %s %s %s)' % (X, motif_lit(inp['M']), C.opt(inp['start']))
-    elif kind == 'ins':
-        call = '(CIns %s %s %s)' % (X, motif_lit(inp['M']), C.opt(inp['start']))
-    elif kind == 'del':
-        call = '(CDel %s %s %s)' % (X, C.z(inp['s']), C.z(inp['e']))
-    elif kind == 'multi':
-        sp = inp['spacing']
+        return '(OSub %s %s)' % (motif_lit(call['M']), C.opt(call['start']))
+    if kind == 'ins':
+        return '(OIns %s %s)' % (motif_lit(call['M']), C.opt(call['start']))
+    if kind == 'del':
+        return '(ODel %s %s)' % (C.z(call['s']), C.z(call['e']))
+    if kind == 'multi':
+        sp = call['spacing']
         if isinstance(sp, int):
-            sp = [sp] * (len(inp['Ms']) - 1)
-        call = '(CMulti %s %s %s %s)' % (X, C.lst([motif_lit(m) for m in inp['Ms']]),
-                                         C.zlist(sp), C.opt(inp['start']))
-    else:
-        Rs = draw_rands(inp)
-        # the draw itself failed (span of non-positive length, probs of the wrong shape): hand the
-        # model a replacement outside the scope, on which it raises and the spec is silent
-        rl = ['(T 0%nat 0%nat [])'] if Rs is None else []
-        if Rs is not None:
-            for R in Rs:
-                rl.append('(T %s %s %s)' % (C.nat(R.shape[1]), C.nat(R.shape[2]),
-                                            nested_lit(from_tensor(R))))
-        call = '(CRand %s %s %s %s)' % (X, C.z(inp['s']), C.z(inp['e']), C.lst(rl))
+            sp = [sp] * (len(call['Ms']) - 1)
+        return '(OMulti %s %s %s)' % (C.lst([motif_lit(m) for m in call['Ms']]), C.zlist(sp),
+                                      C.opt(call['start']))
+    Rs = out.get('Rs')
+    # the draw itself failed (span of non-positive length, probs of the wrong shape): hand the model a
+    # replacement outside the scope, on which it raises and the spec is silent
+    rl = ['(T 0%nat 0%nat [])'] if Rs is None else [nested_tensor_lit(Y, a, l) for a, l, Y in Rs]
+    return '(ORand %s %s %s)' % (C.z(call['s']), C.z(call['e']), C.lst(rl))
+
+
+def outcome_lit(out):
     if out['ok'] and all(isinstance(y, list) for y in out['Y']):
-        o = '(Ok %s)' % C.lst([nested_lit(y) for y in out['Y']])
-    elif out['ok']:
-        o = '(Ok [[[[7]]]])'   # non-integral output: certainly not the expected tensor
-    else:
-        o = 'Err'
-    return '(%s, %s, %s)' % (call, o, C.boolean(out['unchanged']))
+        return '(Ok %s)' % C.lst([nested_lit(y) for y in out['Y']])
+    if out['ok']:
+        return '(Ok [[[[7]]]])'   # non-integral output: certainly not the expected tensor
+    return 'Err'
+
+
+def coq_case(inp, out):
+    steps = ['(%s, %s, %s)' % (op_lit(inp, c, o), outcome_lit(o), C.boolean(o['unchanged']))
+             for c, o in zip(calls_of(inp), outs_of(inp, out))]
+    return '(%s, %s)' % (tensor_lit(inp['A'], inp['X']), C.lst(steps))
 
 
 def nontrivial(inp, out):
     L = len(inp['X'][0])
-    if out['ok']:
-        A = inp['A']
-        X = [[column(A, k) for k in s] for s in inp['X']]
-        return any(y != X for y in out['Y'])
-    pos = [inp.get('start'), inp.get('s'), inp.get('e')]
-    return any(p is not None and (abs(p) <= 3 or abs(p - L) <= 3) for p in pos)
+    X = [[column(inp['A'], k) for k in s] for s in inp['X']]
+    for c, o in zip(calls_of(inp), outs_of(inp, out)):
+        if o['ok']:
+            if any(y != X for y in o['Y']):
+                return True
+        else:
+            pos = [c.get('start'), c.get('s'), c.get('e')]
+            if any(p is not None and (abs(p) <= 3 or abs(p - L) <= 3) for p in pos):
+                return True
+    return False
 
 
 def hist_key(inp, out):
     src = 'corpus' if '_corpus' in inp else inp.get('_src', '?')
-    return '%s/%s/%s' % (src, inp['kind'], 'ok' if out['ok'] else 'raise')
+    outs = outs_of(inp, out)
+    kinds = sorted({c['kind'] for c in calls_of(inp)})
+    n_ok = sum(1 for o in outs if o['ok'])
+    tag = 'ok' if n_ok == len(outs) else 'raise' if n_ok == 0 else 'mixed'
+    return '%s/%s/%s' % (src, '+'.join(kinds) if len(kinds) <= 2 else 'several', tag)
 
+
+# ----------------------------------------------------------------------------------------
+# generators
 
 def all_seqs(A, L):
     return [list(t) for t in itertools.product(range(A), repeat=L)]
@@ -237,12 +427,19 @@ def rand_seq(rng, A, L, bad=False):
     return s
 
 
-def dyadic_probs(rng, pa):
+def dyadic_probs(rng, pa, rows=1):
     """probabilities that are exactly representable in float32 and sum to 1 exactly"""
-    w = [1] * pa
-    for _i in range(16 - pa):
-        w[rng.randrange(pa)] += 1
-    return [[x / 16.0 for x in w]]
+    out = []
+    for _r in range(rows):
+        w = [1] * pa
+        for _i in range(16 - pa):
+            w[rng.randrange(pa)] += 1
+        out.append([x / 16.0 for x in w])
+    return out
+
+
+def family(A, X, calls):
+    return {'kind': 'seq', 'A': A, 'X': X, 'calls': calls}
 
 
 def gen_small(tier, rng):
@@ -267,14 +464,15 @@ def gen_small(tier, rng):
                     if cap and len(motifs) > cap:
                         motifs = rng.sample(motifs, cap)
                     for mo in motifs:
-                        for start in range(-3, L + 4):
-                            form = 'str' if (start + m) % 2 else 'tensor'
+                        calls = []
+                        for start in list(range(-3, L + 4)) + [None]:
+                            form = 'str' if ((start or 0) + m) % 2 else 'tensor'
                             M = {'form': form, 'A': A, 'seqs': [mo]}
-                            yield {'kind': 'sub', 'A': A, 'X': X, 'M': M, 'start': start}
-                            yield {'kind': 'ins', 'A': A, 'X': X, 'M': M, 'start': start}
-                for s in range(-2, L + 3):
-                    for e in range(-2, L + 3):
-                        yield {'kind': 'del', 'A': A, 'X': X, 's': s, 'e': e}
+                            calls.append({'kind': 'sub', 'M': M, 'start': start})
+                            calls.append({'kind': 'ins', 'M': M, 'start': start})
+                        yield family(A, X, calls)
+                yield family(A, X, [{'kind': 'del', 's': s, 'e': e}
+                                    for s in range(-2, L + 3) for e in range(-2, L + 3)])
 
 
 def gen_positions(tier, rng):
@@ -287,37 +485,46 @@ def gen_positions(tier, rng):
             X = [rand_seq(rng, A, L) for _ in range(B)]
             # per-example motifs, every start
             for m in (1, 2, 3):
+                calls = []
                 for start in list(range(-3, L + 4)) + [None]:
                     M = {'form': 'tensor', 'A': A, 'seqs': [rand_seq(rng, A, m) for _ in range(B)]}
-                    yield {'kind': 'sub', 'A': A, 'X': X, 'M': M, 'start': start}
-                    yield {'kind': 'ins', 'A': A, 'X': X, 'M': M, 'start': start}
+                    calls.append({'kind': 'sub', 'M': M, 'start': start})
+                    calls.append({'kind': 'ins', 'M': M, 'start': start})
+                yield family(A, X, calls)
             # multisubstitute on a sequence of length L+3: two motifs, every pair of lengths, spacings at
-            # both ends of the admissible range, every start in [-2, L'+2] and the default; then three
-            # motifs tiling the sequence exactly, shifted one to the right, and centred
+            # both ends of the admissible range, every start in [-2, L'+2] and the default
             L2 = L + 3
             X2 = [rand_seq(rng, A, L2) for _ in range(B)]
+
+            def motif(m):
+                per = rng.random() < 0.3
+                return {'form': 'tensor' if per or rng.random() < 0.5 else 'str', 'A': A,
+                        'seqs': [rand_seq(rng, A, m) for _ in range(B if per else 1)]}
             for m1 in (1, 2, 3):
                 for m2 in (1, 2, 3):
+                    calls = []
                     for sp in sorted({-1, 0, 1, 2, L2 - 1, L2}):
                         for start in list(range(-2, L2 + 3)) + [None]:
                             if (sp < 0 or sp >= L2) and start not in (None, 0):
                                 continue    # rejected for the spacing alone, whatever the start
-                            Ms = []
-                            for m in (m1, m2):
-                                per = rng.random() < 0.3
-                                Ms.append({'form': 'tensor' if per or rng.random() < 0.5 else 'str', 'A': A,
-                                           'seqs': [rand_seq(rng, A, m) for _ in range(B if per else 1)]})
-                            yield {'kind': 'multi', 'A': A, 'X': X2, 'Ms': Ms,
-                                   'spacing': sp if rng.random() < 0.5 else [sp], 'start': start}
+                            calls.append({'kind': 'multi', 'Ms': [motif(m1), motif(m2)],
+                                          'spacing': sp if rng.random() < 0.5 else [sp], 'start': start})
+                    yield family(A, X2, calls)
+            # one motif (empty spacing list / any int spacing) at every start; three motifs tiling the
+            # sequence exactly, shifted one to the right, and centred
+            calls = []
+            for m in (1, 2, L2):
+                for start in list(range(-2, L2 + 3)) + [None]:
+                    calls.append({'kind': 'multi', 'Ms': [motif(m)],
+                                  'spacing': rng.choice([[], 0, 1, L2 - 1]), 'start': start})
             for start in (0, 1, None):
-                lens = [1, L2 - 2, 1]
-                Ms = [{'form': 'str', 'A': A, 'seqs': [rand_seq(rng, A, m)]} for m in lens]
-                yield {'kind': 'multi', 'A': A, 'X': X2, 'Ms': Ms, 'spacing': 0, 'start': start}
+                calls.append({'kind': 'multi', 'Ms': [motif(1), motif(L2 - 2), motif(1)], 'spacing': 0,
+                              'start': start})
+            yield family(A, X2, calls)
             # randomize: every span
-            for s in range(-2, L + 3):
-                for e in range(-2, L + 3):
-                    yield {'kind': 'rand', 'A': A, 'X': X, 's': s, 'e': e, 'probs': dyadic_probs(rng, A),
-                           'n': rng.randint(1, 2), 'seed': rng.randint(0, 10 ** 6)}
+            yield family(A, X, [{'kind': 'rand', 's': s, 'e': e, 'probs': dyadic_probs(rng, A),
+                                 'n': rng.randint(1, 2), 'seed': rng.randint(0, 10 ** 6)}
+                                for s in range(-2, L + 3) for e in range(-2, L + 3)])
 
 
 def edge(rng, lo, hi):
@@ -363,15 +570,18 @@ def gen_inside(rng, A, L, B, X, kind):
             sp = min(rng.choice([0, 0, 1, 2, 3, room]), room, L - 1)
             spacing.append(sp)
             room -= sp
-        if k > 1 and len(set(spacing)) == 1 and rng.random() < 0.5:
+        if len(set(spacing)) == 1 and rng.random() < 0.5:
             spacing = spacing[0]
+        elif k == 1 and rng.random() < 0.5:
+            spacing = rng.choice([0, 1, L - 1])
         start = None if rng.random() < 0.25 else edge(rng, 0, room)
         return {'kind': 'multi', 'A': A, 'X': X, 'Ms': [motif(m) for m in lens], 'spacing': spacing,
                 'start': start}
     s = edge(rng, 0, L - 1)
     e = edge(rng, s + 1, L)
-    return {'kind': 'rand', 'A': A, 'X': X, 's': s, 'e': e, 'probs': dyadic_probs(rng, A),
-            'n': rng.randint(1, 3), 'seed': rng.randint(0, 10 ** 6)}
+    return {'kind': 'rand', 'A': A, 'X': X, 's': s, 'e': e,
+            'probs': dyadic_probs(rng, A, rng.choice([1, 1, B])),
+            'n': rng.choice([1, 1, 2, 3, 5]), 'seed': rng.randint(0, 10 ** 6)}
 
 
 def gen_edgy(rng, A, L, B, kind):
@@ -414,7 +624,8 @@ def gen_edgy(rng, A, L, B, kind):
     s = near()
     e = rng.choice([near(), s + rng.randint(-1, 5), L, L + 1])
     pa = A if rng.random() > 0.1 else rng.choice([2, 3, 4, 5])
-    return {'kind': 'rand', 'A': A, 'X': X, 's': s, 'e': e, 'probs': dyadic_probs(rng, pa),
+    return {'kind': 'rand', 'A': A, 'X': X, 's': s, 'e': e,
+            'probs': dyadic_probs(rng, pa, rng.choice([1, 1, 1, B, B + 1])),
             'n': rng.randint(1, 3), 'seed': rng.randint(0, 10 ** 6)}
 
 
@@ -433,14 +644,266 @@ def gen_random(tier, rng):
             yield gen_edgy(rng, A, L, B, kind)
 
 
+def rand_letters(rng, A):
+    pool = list('ACGTXYWZ')
+    if rng.random() < 0.5:
+        l = list(LETTERS[:A])
+    else:
+        l = rng.sample(pool, A)
+    rng.shuffle(l)
+    return ''.join(l)
+
+
+def rand_opts(rng, A, kind):
+    """one random choice for every input form"""
+    dts = sorted(DTYPES)
+    o = {'itype': rng.choice(['int', 'np64', 'np32']),
+         'mdtype': [rng.choice(dts) for _ in range(3)],
+         'mlayout': rng.choice(['contig', 'contig', 'permuted', 'slice']),
+         'aform': rng.choice(['list', 'str'] + (['default'] if A == 4 else []))}
+    if kind == 'rand':
+        o['pform'] = rng.choice(['list', 'numpy', 'numpy32', 'tensor', 'tensor64'])
+        o['rsform'] = rng.choice(['int', 'np64', 'state'])
+    return o
+
+
+def x_opts(rng):
+    return {'xdtype': rng.choice(sorted(DTYPES)), 'xlayout': rng.choice(['contig', 'permuted', 'slice'])}
+
+
+def gen_forms(tier, rng):
+    """(4) every accepted input form on in-scope calls, and edge values"""
+    quick = tier != 'thorough'
+    n = 700 if quick else 5000
+    for i in range(n):
+        A = rng.choice([2, 3, 4, 4, 4, 5, 6])
+        L = rng.choice([1, 2, 3, 5, 8, 13])
+        B = rng.randint(1, 4)
+        kind = ['sub', 'ins', 'del', 'multi', 'rand'][i % 5]
+        X = [rand_seq(rng, A, L) for _i in range(B)]
+        inp = gen_inside(rng, A, L, B, X, kind) if rng.random() < 0.75 else gen_edgy(rng, A, L, B, kind)
+        o = rand_opts(rng, A, kind)
+        o.update(x_opts(rng))
+        if kind == 'rand' and A == 4 and rng.random() < 0.3:
+            inp['probs'] = [[0.25] * 4]
+            o['pform'] = 'default'
+        inp['opts'] = o
+        if o['aform'] != 'default':
+            inp['alphabet'] = rand_letters(rng, A)
+        yield inp
+    # edge values
+    for A in (2, 4, 6):
+        for L in (1, 2, 5):
+            B = rng.randint(1, 3)
+            X = [rand_seq(rng, A, L) for _i in range(B)]
+            empty_s = {'form': 'str', 'A': A, 'seqs': [[]]}
+            empty_t = {'form': 'tensor', 'A': A, 'seqs': [[]] * B}
+            whole = {'form': 'tensor', 'A': A, 'seqs': [rand_seq(rng, A, L) for _i in range(B)]}
+            one = {'form': 'str', 'A': A, 'seqs': [rand_seq(rng, A, 1)]}
+            calls = []
+            for M in (empty_s, empty_t):
+                for start in (0, L, None):
+                    calls.append({'kind': 'sub', 'M': M, 'start': start})
+                    calls.append({'kind': 'ins', 'M': M, 'start': start})
+                calls.append({'kind': 'multi', 'Ms': [M], 'spacing': [], 'start': 0})
+                calls.append({'kind': 'multi', 'Ms': [one, M], 'spacing': 0, 'start': 0})
+            for start in (0, None, 1, -1):
+                calls.append({'kind': 'sub', 'M': whole, 'start': start})
+                calls.append({'kind': 'multi', 'Ms': [whole], 'spacing': [], 'start': start})
+            calls.append({'kind': 'del', 's': 0, 'e': L})
+            calls.append({'kind': 'del', 's': L - 1, 'e': L})
+            calls.append({'kind': 'del', 's': L, 'e': L})
+            calls.append({'kind': 'del', 's': 0, 'e': 0})
+            for n_ in (1, 5):
+                calls.append({'kind': 'rand', 's': 0, 'e': L, 'probs': dyadic_probs(rng, A, B), 'n': n_,
+                              'seed': rng.randint(0, 999)})
+                calls.append({'kind': 'rand', 's': L - 1, 'e': L, 'probs': dyadic_probs(rng, A), 'n': n_,
+                              'seed': rng.randint(0, 999)})
+            yield family(A, X, calls)
+
+
+def vary(rng, A, L, B, X, c):
+    """a copy of call c with ONE thing changed"""
+    d = copy.deepcopy(c)
+    o = d.setdefault('opts', {})
+    kind = d['kind']
+    choices = ['itype', 'reject']
+    if kind in ('sub', 'ins'):
+        choices += ['start', 'start', 'kind', 'mform', 'mdtype', 'alphabet', 'aform']
+    elif kind == 'del':
+        choices += ['s', 'e']
+    elif kind == 'multi':
+        choices += ['start', 'spform', 'one', 'mdtype', 'alphabet', 'aform', 'twice']
+    else:
+        choices += ['seed', 'same', 'pform', 'rsform', 'n', 'probs', 's']
+    what = rng.choice(choices)
+    if what == 'itype':
+        o['itype'] = rng.choice([t for t in ITYPES if t != o.get('itype', 'int')])
+    elif what == 'reject':
+        key = 'start' if 'start' in d else rng.choice(['s', 'e'])
+        d[key] = rng.choice([-1, L + 1, L + 2]) if key != 's' else rng.choice([-1, L])
+        d['_rej'] = True
+    elif what == 'start':
+        if kind == 'multi':
+            sp = d['spacing']
+            m = sum(len(M['seqs'][0]) for M in d['Ms']) + \
+                (sp * (len(d['Ms']) - 1) if isinstance(sp, int) else sum(sp))
+        else:
+            m = len(d['M']['seqs'][0])
+        hi = L if kind == 'ins' else max(0, L - m)
+        d['start'] = None if d['start'] is not None and rng.random() < 0.3 else edge(rng, 0, hi)
+    elif what == 'kind':
+        d['kind'] = 'ins' if kind == 'sub' else 'sub'
+    elif what == 'mform':
+        M = d['M']
+        if M['form'] == 'tensor' and len(M['seqs']) == 1:
+            M['form'] = 'str'
+        elif M['form'] == 'str':
+            M['form'] = 'tensor'
+        else:
+            o['mlayout'] = rng.choice(['permuted', 'slice', 'contig'])
+    elif what == 'mdtype':
+        o['mdtype'] = [rng.choice(sorted(DTYPES)) for _ in range(2)]
+        for M in ([d['M']] if 'M' in d else d['Ms']):
+            if M['form'] == 'str' and rng.random() < 0.5:
+                M['form'] = 'tensor'
+    elif what == 'alphabet':
+        # same letters in another order: a string motif keeps its TEXT, so it denotes other columns
+        old = d.get('alphabet') or LETTERS[:A]
+        new = list(old)
+        rng.shuffle(new)
+        new = ''.join(new)
+        for M in ([d['M']] if 'M' in d else d['Ms']):
+            if M['form'] == 'str':
+                M['seqs'] = [[new.index(old[k]) for k in M['seqs'][0]]]
+        d['alphabet'] = new
+        if o.get('aform') == 'default':
+            o['aform'] = 'list'
+    elif what == 'aform':
+        forms = ['list', 'str'] + (['default'] if (d.get('alphabet') or LETTERS[:A]) == 'ACGT' else [])
+        o['aform'] = rng.choice([f for f in forms if f != o.get('aform', 'list')])
+    elif what in ('s', 'e'):
+        if kind == 'rand' or what == 's':
+            d['s'] = edge(rng, 0, d['e'] - 1)
+        else:
+            d['e'] = edge(rng, d['s'] + 1, L)
+    elif what == 'spform':
+        sp = d['spacing']
+        if isinstance(sp, int):
+            d['spacing'] = [sp] * (len(d['Ms']) - 1)
+        elif len(set(sp)) == 1:
+            d['spacing'] = sp[0]
+        elif not sp:
+            d['spacing'] = rng.choice([0, 1])
+    elif what == 'one':
+        d['Ms'] = d['Ms'][:1]
+        d['spacing'] = rng.choice([[], 0])
+    elif what == 'twice' and len(d['Ms']) >= 2:
+        # the same motif object twice in the list
+        m0 = d['Ms'][0]
+        tot = len(m0['seqs'][0]) * 2
+        if tot <= L:
+            d['Ms'] = [m0, copy.deepcopy(m0)]
+            d['spacing'] = [min(1, L - tot)]
+            d['start'] = 0
+    elif what == 'seed':
+        d['seed'] = rng.randint(0, 10 ** 6)
+    elif what == 'same':
+        pass
+    elif what == 'pform':
+        if A == 4 and rng.random() < 0.4:
+            d['probs'] = [[0.25] * 4]
+            o['pform'] = 'default'
+        else:
+            o['pform'] = rng.choice(['list', 'numpy', 'numpy32', 'tensor', 'tensor64'])
+    elif what == 'rsform':
+        o['rsform'] = rng.choice([f for f in ('int', 'np64', 'state') if f != o.get('rsform', 'int')])
+    elif what == 'n':
+        d['n'] = rng.choice([1, 2, 3, 5])
+    elif what == 'probs':
+        d['probs'] = dyadic_probs(rng, A, rng.choice([1, B]))
+        if o.get('pform') == 'default':
+            o['pform'] = 'list'
+    return d
+
+
+def gen_seq(tier, rng):
+    """(5) families of calls on the same objects, one thing changed between consecutive calls"""
+    quick = tier != 'thorough'
+    n = 500 if quick else 4000
+    for i in range(n):
+        A = rng.choice([2, 3, 4, 4, 4, 4, 5, 6])
+        L = rng.choice([2, 3, 5, 8, 12])
+        B = rng.randint(1, 4)
+        X = [rand_seq(rng, A, L) for _i in range(B)]
+        kind = ['sub', 'ins', 'del', 'multi', 'rand', 'sub', 'multi', 'rand'][i % 8]
+        c = gen_inside(rng, A, L, B, X, kind)
+        c.pop('A')
+        c.pop('X')
+        c['opts'] = rand_opts(rng, A, kind) if rng.random() < 0.5 else \
+            ({'aform': 'default'} if A == 4 else {})
+        if c['opts'].get('aform') == 'default' and kind == 'rand' and rng.random() < 0.5:
+            c['probs'] = [[0.25] * 4]
+            c['opts']['pform'] = 'default'
+        if c['opts'].get('aform', 'list') != 'default' and rng.random() < 0.5:
+            c['alphabet'] = rand_letters(rng, A)
+        calls = [c]
+        for _j in range(rng.randint(2, 6)):
+            prev = calls[-1]
+            if prev.get('_rej'):
+                prev = calls[-2]
+            d = vary(rng, A, L, B, X, prev)
+            calls.append(d)
+        if rng.random() < 0.4:
+            calls.append(copy.deepcopy(calls[0]))      # and the first call once more
+        if rng.random() < 0.3:
+            # an unrelated primitive in between, on the same X
+            other = gen_inside(rng, A, L, B, X, rng.choice(['sub', 'ins', 'del', 'multi', 'rand']))
+            other.pop('A')
+            other.pop('X')
+            calls.insert(rng.randint(1, len(calls)), other)
+        fam = family(A, X, calls)
+        fam['opts'] = x_opts(rng) if rng.random() < 0.6 else {}
+        yield fam
+
+
 def generate(tier, rng):
-    for src, g in (('small', gen_small), ('pos', gen_positions), ('random', gen_random)):
+    for src, g in (('small', gen_small), ('pos', gen_positions), ('random', gen_random),
+                   ('forms', gen_forms), ('seq', gen_seq)):
         for inp in g(tier, rng):
             inp['_src'] = src
             yield inp
 
 
 def shrink(inp):
+    if inp['kind'] == 'seq':
+        calls = inp['calls']
+        # a single call of the family (with the family's X and options)
+        if len(calls) > 1:
+            for c in calls:
+                d = {k: v for k, v in inp.items() if k != 'calls'}
+                d.update(copy.deepcopy(c))
+                o = dict(inp.get('opts') or {})
+                o.update(c.get('opts') or {})
+                d['opts'] = o
+                yield d
+            # halves, then drop one call
+            h = len(calls) // 2
+            yield dict(inp, calls=calls[:h])
+            yield dict(inp, calls=calls[h:])
+            if len(calls) <= 12:
+                for i in range(len(calls)):
+                    yield dict(inp, calls=calls[:i] + calls[i + 1:])
+        elif calls:
+            d = {k: v for k, v in inp.items() if k != 'calls'}
+            d.update(copy.deepcopy(calls[0]))
+            yield d
+        return
+    # default forms
+    if inp.get('opts'):
+        yield {k: v for k, v in inp.items() if k != 'opts'}
+        for k in inp['opts']:
+            yield dict(inp, opts={a: b for a, b in inp['opts'].items() if a != k})
     # drop batch rows
     B = len(inp['X'])
     if B > 1:
@@ -452,6 +915,8 @@ def shrink(inp):
             if inp['kind'] == 'multi':
                 c['Ms'] = [dict(m, seqs=(m['seqs'][:i] + m['seqs'][i + 1:]) if len(m['seqs']) == B else m['seqs'])
                            for m in inp['Ms']]
+            if inp['kind'] == 'rand' and len(inp['probs']) == B:
+                c['probs'] = inp['probs'][:i] + inp['probs'][i + 1:]
             yield c
     # shorten sequences from the right
     L = len(inp['X'][0])
